@@ -628,7 +628,8 @@ func GetDisplayStyle(node *html.Node) string {
 		"code", "data", "defs", "del", "dfn", "ellipse", "em", "embed", "font", "i", "iframe", "img",
 		"ins", "kbd", "label", "lineargradient", "mark", "object", "output", "picture", "polygon",
 		"q", "rect", "s", "source", "span", "stop", "strong", "sub", "sup", "svg", "tt", "text",
-		"time", "track", "u", "var", "video", "wbr":
+		"time", "track", "u", "var", "video", "wbr",
+		"big", "nobr", "samp", "small", "strike":
 		return "inline"
 	case "button", "input":
 		return "inline-block"
